@@ -18,6 +18,7 @@ import SfModel.Small2
 import SfModel.Htk
 import SfModel.Wve
 import SfModel.Mpc2k
+import SfModel.Pvf
 import Driver.Util
 open Sf (hexBytes hexFixed parseHexBytes parseHexNat Byte)
 open Sf.Small2
@@ -81,8 +82,16 @@ def mpc2k : Container :=
     parse := Sf.Mpc2k.parse,
     quant := Sf.Mpc2k.quant }
 
+def pvf : Container :=
+  { fmtOf := fun toks =>
+      let c : Sf.Pvf.Cfg := { codec := hexKey toks "codec", ch := kvNat toks "ch" 1, sr := kvNat toks "sr" 1 }
+      if endianOf toks < 4 ∧ decide c.wf then some (Sf.Pvf.fmt c) else none,
+    parse := Sf.Pvf.parse,
+    quant := Sf.Pvf.quant }
+
 def containerOf (name : String) : Option Container :=
   match name with
+  | "pvf" => some pvf
   | "htk" => some htk
   | "wve" => some wve
   | "mpc2k" => some mpc2k
